@@ -321,6 +321,10 @@ func corpus(r *hx.Run) {
 	seqCase(r, "dagc", []string{"rlock:1", "runlock:2", "lock:1"})         // nothing unregistered: Lock(1) stays blocked
 	seqCase(r, "dagc", []string{"rlock:1,1", "runlock:1,1,1", "lock:1"})   // duplicates: validated with multiplicity, nothing unregistered
 	seqCase(r, "dagc", []string{"unlock:1", "lock:1"})                     // Unlock's lookup panic releases d.Mutex first: Lock(1) is granted
+	// wrong mode at the 2nd id: entity 1 released, entity 3 (write-locked) frozen by the panic, entity 2 still read-locked,
+	// all registrations in place; afterwards Lock(1) and RLock(2) are granted, Unlock(3) blocks on the frozen mutex
+	seqCase(r, "dagc", []string{"rlock:1,2", "lock:3", "runlock:1,3,2", "lock:1", "rlock:2", "unlock:3"})
+	seqCase(r, "dagc", []string{"rlock:1,2", "lock:3", "runlock:1,3,2", "lock:2"}) // … and Lock(2) blocks behind the read lock
 	gapCorpus(r)
 	extremeCounterCorpus(r)
 	// Set(5) holds the value lock in its subscriber callback while Set(30), WaitIsBelow(30) and Update(-1) queue up: the
